@@ -254,7 +254,7 @@ CONN_PROJ = {
     "C03": {"nopanic", "recvs", "calls", "window", "harness"},
     "C04": {"res", "popped", "whole"},
     "C06": {"wres", "calls", "sent", "pending", "offered"},
-    "C11": {"res", "popped", "pending", "sent", "wres"},
+    "C11": {"res", "popped", "pending", "sent", "wres", "files", "leak"},
     "C12": {"files", "leak"},
     "C13": {"sent", "pending", "wres", "popped"},
 }
@@ -457,7 +457,8 @@ TABLE = {
     "C03": lambda tier, seed: conn_property("C03", tier, seed, conn_models(tier), [("full", "C03"), ("small", "C03")], CONN_ASSUME, "DESIGN.md 6 C03", extra_fn=["C03"]),
     "C04": lambda tier, seed: conn_property("C04", tier, seed, conn_models(tier), [("full", "C04"), ("small", "C04")], CONN_ASSUME, "DESIGN.md 6 C04",
                                             extra_srv=[("full", "C04", 200, 2000)], gen_replay=True),
-    "C06": lambda tier, seed: conn_property("C06", tier, seed, ["mc_write"], [("full", "C06")], CONN_ASSUME, "DESIGN.md 6 C06"),
+    "C06": lambda tier, seed: conn_property("C06", tier, seed, ["mc_write"], [("full", "C06")], CONN_ASSUME, "DESIGN.md 6 C06",
+                                            extra_srv=[("full", "C07pipe", 150, 1500)]),
     "C11": lambda tier, seed: conn_property("C11", tier, seed, conn_models(tier), [("full", "C11"), ("small", "C11")], CONN_ASSUME, "DESIGN.md 6 C11",
                                             extra_srv=[("full", "C09", 150, 1500)], gen_replay=True),
     "C12": lambda tier, seed: conn_property("C12", tier, seed, ["conn_files"], [("full", "C12")], CONN_ASSUME, "DESIGN.md 6 C12"),
@@ -489,6 +490,7 @@ SRV_PROJ = {
     "C10": r"^(capacity:|fds:|sweep:|eof:|bytes:|pollerr:)",
     "C18": r"^(kill:|ready:|pollerr:|batch:|hang)",
     "C04": r"^(bytes:|yield:)",
+    "C06": r"^(bytes:differ|bytes:extra)",
     "C11": r"^(bytes:|yield:)",
     "C13": r"^(bytes:|yield:|ready:stall)",
 }
